@@ -20,6 +20,10 @@ ASSUME = [
     "noaddr = address of a transport that is compiled but not enabled (plain /udp in mix), decoy = live node whose routing "
     "entries also carry dead addresses (of the other transports in mix); over quic / mix every scenario with a fault adds "
     "2 x 5 s (dial deadline) per phase to the timeouts before the x3",
+    "pair family: two concurrent operations (every pair of kinds) whose only / last target is the same fault node (silent, "
+    "killed when the first request has been read, killed at connection, killed when the data arrives) in networks of 2-3 nodes; "
+    "killed-after-request family: one operation whose target dies as soon as it has read the request - the order in which the "
+    "local node sees ConnectionClosed and the executor result is decided by timing, the runs are repeated",
     "deadline per scenario = 3 x (compile-time / default timeouts that fire on its path: 15 s executor read timeout per silent "
     "phase, 5 s keep-alive, 5 s substream open) + 30 s; a scenario in which any node's own watchdog or the controller saw a "
     "scheduling delay above 2 s is discarded and re-run once, never judged",
@@ -41,7 +45,7 @@ MC_BASE = {"Peers": {"p1", "p2", "p3"}, "Qs": {1}, "Kinds": set(ALLK), "Quorums"
 MC_INV = ["SPECIFICATION Spec", "INVARIANTS MonOK QuiesceOK OwedCovered Shape", "CHECK_DEADLOCK FALSE"]
 MC_STRICT = ["SPECIFICATION Spec", "INVARIANTS MonStrict QuiesceStrict OwedStrict Shape", "CHECK_DEADLOCK FALSE"]
 MUTS = ["dialfail_no_report", "closed_no_report", "exfail_no_report", "assume_without_send", "double_terminal",
-        "quorum_off_by_one", "hdial_dropped", "limit_reject_silent"]
+        "quorum_off_by_one", "hdial_dropped", "limit_reject_silent", "ctx_gone_no_report"]
 
 
 def mc_runs(ctx):
@@ -49,10 +53,15 @@ def mc_runs(ctx):
     reports to the owning query), so the strict invariants - no excuse for tagged paths - must hold everywhere.  The
     model of the earlier code (Fixed = {}) is kept as a negative configuration of the self-test."""
     if ctx.quick():
-        runs = [("code", dict(MC_BASE), MC_STRICT)]
+        runs = [("code", dict(MC_BASE), MC_STRICT),
+                # two concurrent operations sharing their target peers; executor results and connection events in any order
+                ("two-ops-shared-peer", dict(MC_BASE, Peers={"p1", "p2"}, Qs={1, 2}, Kinds={"find_node", "get", "provide"},
+                                             Quorums={"all"}, Roles="<- AnyOnly", Limit=False), MC_STRICT)]
     else:
         runs = [("code", dict(MC_BASE), MC_STRICT),
                 ("code-inbound-discover", dict(MC_BASE, Inbound=True, Discover=True), MC_STRICT),
+                ("two-ops-shared-peer", dict(MC_BASE, Peers={"p1", "p2"}, Qs={1, 2}, Kinds={"find_node", "get", "provide"},
+                                             Quorums={"all"}, Roles="<- AnyOnly", Limit=False), MC_STRICT),
                 ("two-ops", dict(MC_BASE, Peers={"p1", "p2"}, Qs={1, 2}, Kinds={"find_node", "put_to", "provide"},
                                  Quorums={"one", "all"}, Roles="<- AnyOnly"), MC_STRICT)]
     out = []
@@ -133,7 +142,7 @@ FAULTS = {
     # a live node whose routing entries also carry dead addresses (mix: of the other transports)
     "decoy": {"role": "kad", "decoy": True},
 }
-SLOW = {"silent": 15, "silentput": 15, "nokad": 10}     # seconds of timeouts expected to fire on the path
+SLOW = {"silent": 15, "silentput": 15, "nokad": 10, "dieonreq": 5}     # seconds of timeouts expected to fire on the path
 
 
 def fault(name, known=True, learn=True):
@@ -184,6 +193,10 @@ def family(name):
         return "inbound"
     if name.startswith("random-"):
         return "random"
+    if name.startswith("pair-"):
+        return "pair:" + name.split("-")[1]
+    if name.startswith("killed-after-request-"):
+        return "killed-after-request"
     return "single:" + name
 
 
@@ -289,6 +302,7 @@ def base_scenarios(ctx, pl, seed):
                         nodes[t - 1]["known"] = True
             S.append(mk("random-%d" % i, nodes, ops, warm=rnd.random() < 0.4, seq=rnd.random() < 0.2,
                         after_drop_ms=rnd.choice([0, 300])))
+    S += pair_scenarios(ctx, rnd)
     return S
 
 
@@ -311,6 +325,10 @@ def scenarios(ctx, pl=()):
                 n = 2
             elif fam in ("discovered", "warm"):
                 n = 3
+            elif fam.startswith("pair:"):
+                n = 4
+            elif fam == "killed-after-request":
+                n = 6
             elif fam == "direct":          # the two silent placements of the quick tier: one per transport
                 n = 1
             else:
@@ -325,6 +343,45 @@ def scenarios(ctx, pl=()):
     for i, s in enumerate(S):
         s["id"] = i + 1
     return S
+
+
+LOOKUPS = ["find_node", "get", "get_providers", "put", "provide"]
+
+
+def pair_scenarios(ctx, rnd):
+    """Two concurrent operations (every pair of kinds) whose only / last target is the same fault node, in networks of
+    2-3 nodes so that nothing else can finish the query, and single operations whose target is killed right after the
+    request was written (the order ConnectionClosed / executor result is decided by timing: repeated)."""
+    def op(k):
+        return {"kind": k, "quorum": "all", "n": 2} if k in ("put", "provide") else {"kind": k}
+    pairs = [(a, b) for i, a in enumerate(LOOKUPS) for b in LOOKUPS[i + 1:]]
+    same = [(a, a) for a in ("find_node", "put")]
+    out = []
+    reps = 1 if ctx.quick() else 3
+    k = 0
+    for fname, spec_, plist in (
+            ("silent", {"role": "silent"}, pairs + same),
+            ("dieonreq", {"role": "dieonreq"}, pairs + same),
+            ("dropconn", {"role": "kad", "drop": "conn"}, pairs),
+            ("droprecv", {"role": "kad", "drop": "recv"}, [p for p in pairs if "put" in p or "provide" in p] + [("put", "put")])):
+        for (a, b) in plist:
+            for r in range(reps if fname != "silent" else 1):
+                k += 1
+                f = dict(spec_, known=True, learn=True, fault=fname)
+                # alternately the fault node alone, or next to one ordinary node (it is then the last pending peer)
+                nodes = [f] if k % 2 else [dict(H), f]
+                sc = mk("pair-%s-%s+%s-%d" % (fname, a, b, r), nodes, [op(a), op(b)])
+                if fname == "silent":
+                    sc["settle_ms"] = 3000
+                out.append(sc)
+    for kind in LOOKUPS + ["put_to"]:
+        for r in range(3 if ctx.quick() else 8):
+            k += 1
+            f = {"role": "dieonreq", "known": True, "learn": True, "fault": "dieonreq"}
+            nodes = [f] if k % 2 else [dict(H), f]
+            o = op(kind) if kind != "put_to" else {"kind": "put_to", "quorum": "all", "targets": [len(nodes)]}
+            out.append(mk("killed-after-request-%s-%d" % (kind, r), nodes, [o]))
+    return out
 
 
 def limit_scenarios():
@@ -581,7 +638,7 @@ def check(ctx):
     cov = coverage(scen, diags, lines, mc, summ, nseg, nev)
     cov["generation"] = gstats
     cov["placements_from_tlc"] = sum(1 for x in scen if x["name"].startswith("tlc-"))
-    missing = ["%s@%s" % (f, tr) for tr in TRANSPORTS for f in list(FAULTS) + ["limit-reached", "limit-racing", "inbound-only"]
+    missing = ["%s@%s" % (f, tr) for tr in TRANSPORTS for f in list(FAULTS) + ["limit-reached", "limit-racing", "inbound-only", "dieonreq"]
                if not cov["by_transport"].get(tr, {}).get("fault_roles", {}).get(f) and not (f == "silentput" and ctx.quick())]
     missing += [f for f in FAULTS if not cov["fault_roles_exercised"].get(f)]
     missing += [k for k in ALLK if not cov["operation_kinds_exercised"].get(k)]
